@@ -75,6 +75,8 @@ Reach2(a) == UNION {Table[b] : b \in Table[a]}
 Reach3(a) == UNION {Reach2(b) : b \in Table[a]}
 Reach4(a) == UNION {Reach3(b) : b \in Table[a]}
 ReachN(a) == Reach1(a) \cup Reach2(a) \cup Reach3(a) \cup Reach4(a)
+\* states reachable over edges that need no container (building Assignment objects, with or without a refusal)
+CtorReach(a) == IF a = "pending" THEN {"assigned", "failed"} ELSE IF a = "failed" THEN {"assigned"} ELSE IF a = "assigned" THEN {"failed"} ELSE {}
 
 LiveObs(o) == UNION {{[cid |-> o.pools[k].active[j].cid, idx |-> o.pools[k].active[j].idx, ops |-> o.pools[k].active[j].ops] : j \in 1..Len(o.pools[k].active)}
                       \cup {[cid |-> o.pools[k].suspending[j].cid, idx |-> o.pools[k].suspending[j].idx, ops |-> o.pools[k].suspending[j].ops] : j \in 1..Len(o.pools[k].suspending)}
@@ -309,6 +311,9 @@ Step(e) ==
          /\ IF e.raised # ""
             THEN /\ Bump(RReject, 1)
                  /\ Flag(e, "conf.raise.round", pred.crash # "", <<"code raised", e.raised, "spec accepts", e.asg>>)
+                 \* what a refused construction leaves behind: no container is involved, so an operator either keeps its state or moved along
+                 \* edges that need none (taken: pending/failed -> assigned; given up: assigned -> failed) - never assigned -> pending
+                 /\ Flag(e, "C02.LegalMoves", \A x \in AllOpsOf(wl) : ObsOst(e, x) # Ost(base, x) => ObsOst(e, x) \in CtorReach(Ost(base, x)), "refused round")
                  /\ s' = s /\ dead' = TRUE
             ELSE IF pred.crash # ""
             THEN /\ Flag(e, RejectClause(pred.crash), FALSE, <<"spec rejects with", pred.crash, "code built the assignment", e.asg>>)
